@@ -256,6 +256,37 @@ def h_oddity(kind):
                         is_initiator=True, message_id=a.my_msg_id, payloads=[], encrypted_payloads=[m.PayloadIDi(1, idd)], crypto=a.my_crypto)
         msg.encrypted_payloads[0].id_type = idt
         data = msg.to_bytes()
+    elif kind == 'textual_identity_shapes':
+        # identities of the textual types whose bytes are long runs of one character class with one odd character at the end / in the middle:
+        # rendering them for the log (done eagerly for every received message) must stay cheap (wall-clock alarm: the work is in C code)
+        import signal
+        shapes = [b'a' * 40 + b'!', b'a' * 64 + b'!', b'a.' * 30 + b'!', b'1' * 48 + b'@', b'a' * 30 + b'@' + b'b' * 40 + b'!', b'-' * 64, b'a-' * 32 + b'_', b'\x00' * 64,
+                  b'a' * 200, (b'ab' * 16 + b'.') * 4 + b'$']
+        c = eng.sym_int('shape', 0, len(shapes) - 1)
+        sh = shapes[eng.concretize(c, 0, len(shapes) - 1) if not isinstance(c, int) else c]
+        t = eng.sym_int('id_type', 2, 3)
+        idt = eng.concretize(t, 2, 3) if not isinstance(t, int) else t
+        msg = m.Message(spi_i=a.spi_i, spi_r=a.spi_r, major=2, minor=0, exchange_type=37, is_response=False, can_use_higher_version=False,
+                        is_initiator=True, message_id=a.my_msg_id, payloads=[], encrypted_payloads=[m.PayloadIDi(idt, sh)], crypto=a.my_crypto)
+        data = msg.to_bytes()
+
+        class Hang(BaseException):
+            pass
+
+        def on_alarm(*_):
+            raise Hang(f'an identity of type {idt} with data {sh[:12]!r}... ({len(sh)} bytes) kept the loop busy for more than 20 s: it never came back to wait')
+        old = signal.signal(signal.SIGALRM, on_alarm)
+        signal.alarm(20)
+        try:
+            lp, bad = run(n, [{'kind': 'udp', 'dst': world.IP2, 'src': str(world.IP1), 'data': data}, {'kind': 'tick'}], f'oddity {kind}')
+        except Hang:
+            bad = f'oddity {kind}: an identity of type {idt} with data {sh[:12]!r}... ({len(sh)} bytes) kept the loop busy for more than 20 s (it never came back to wait)'
+        finally:
+            signal.alarm(0)
+            signal.signal(signal.SIGALRM, old)
+        if bad:
+            return {'class': ['oddity', kind], 'violation': bad}
+        return ['oddity', kind, 'survived']
     elif kind in ('child_request_spi_size', 'child_response_spi_size'):
         # an authenticated peer names a CHILD_SA SPI that is not 4 bytes long (size: case split 0..8), in a request / in its response to OUR request
         c = eng.sym_int('spi_size', 0, 8)
@@ -377,7 +408,11 @@ def build_instances(tier):
                     continue
                 inst.append(Instance(f'datagram n={nb} src={src} session={pre}', h_datagram, (nb, src, pre), native=nat(h_datagram),
                                      engine_kw={'max_ticks': 3000 + 80 * nb}))
-    for kind in ('unknown_exchange', 'init_for_existing_spi', 'binary_vendor', 'binary_identity', 'init_sa_bytes', 'child_request_spi_size', 'child_response_spi_size'):
+    from . import c16
+    for order in ('live_last', 'live_first', 'live_middle'):
+        inst.append(Instance(f'two peers die together, table order {order}', c16.h_two_timeouts, (order,), native=nat(c16.h_two_timeouts), engine_kw={'max_ticks': 10 ** 7},
+                             must_reach=[('ok', lambda o: o[0] == 'two_timeouts')]))
+    for kind in ('unknown_exchange', 'init_for_existing_spi', 'binary_vendor', 'binary_identity', 'init_sa_bytes', 'child_request_spi_size', 'child_response_spi_size', 'textual_identity_shapes'):
         inst.append(Instance(f'oddity {kind}', h_oddity, (kind,), native=nat(h_oddity), engine_kw={'max_ticks': 20000, 'max_wall_s': 600}))
     for kind in (('acquire', 'expire_known') if tier == 'quick' else ('acquire', 'acquire_unknown_index', 'acquire_unknown_peer', 'expire_unknown', 'expire_known')):
         for vary in ('cut', 'type', 'flags'):
@@ -394,6 +429,8 @@ def _load(shim):
     global MODS
     MODS = world.load(shim=shim)
     c08.MODS = MODS
+    from . import c16
+    c16.MODS = MODS
     return MODS
 
 
